@@ -8,6 +8,10 @@ TRUST = ('Trusted: clang 14 front end (AST, constant folding, CFG), compile flag
          'rule code, and the frozen instance tables under spec/. ')
 
 CLAIMS = {
+ 'C11': dict(category='other',
+   text='Partial: over all ctl dispatchers and every case arm - the set of request values that can reach a state store or a forwarded sub-request equals the documented accepted set (interval-set abstract interpretation per arm), GET out-pointers are null-checked, GET reads the path SET wrote, unknown requests give OPUS_UNIMPLEMENTED, the bad_arg exit stores nothing, create/init validate before clear/alloc and free on failure, settings fields are written only by the dispatcher and init, forwarded multistream requests are atomic (one known finding). That a stored setting actually shapes later packets is NOT decided.',
+   note=TRUST + 'spec/ctl_ranges.json is a hand transcription of include/opus_defines.h. Three genuine defects found by these rules were repaired by fix: commits (see known_findings.json).',
+   technique='per-arm interval-set abstract interpretation of the ctl switch + edge-dominance guard facts + who-may-write (field ownership) over the whole program'),
  'C14': dict(category='proof',
    text='Static non-interference argument discharged over every library TU: no static-storage object is ever written (whole-program may-point-to over all stores incl. mem*/intrinsic/asm destinations), no hidden-state libc call, no pseudostack; so distinct objects share read-only memory only.',
    note=TRUST + 'Points-to is unsound only for pointers laundered through integers/unions/varargs; libc mem*/malloc/libm thread-safe; one thread per object.',
